@@ -7,7 +7,7 @@ import (
 var numericFamilies = []string{"unsigned", "signed", "float"}
 
 var baseMix = Mix{InsertNew: 10, Overwrite: 3, DeletePresent: 6, DeleteAbsent: 3, SearchPresent: 2, SearchAbsent: 4,
-	BulkInsert: 2, BulkDelete: 2, DeleteAll: 1}
+	BulkInsert: 2, BulkDelete: 2, DeleteAll: 1, Audit: 1}
 
 func withMix(m Mix, f func(*Mix)) Mix { f(&m); return m }
 
@@ -38,7 +38,7 @@ var specs = []*PropSpec{
 	},
 	{
 		ID:  "C03",
-		Cfg: Config{Property: "C03", Assert: asserts("range"), ExcludeKF: true, Census: true},
+		Cfg: Config{Property: "C03", Assert: asserts("range"), AuditOps: []string{"rangeaudit"}, AuditEvery: 9, ExcludeKF: true, Census: true},
 		Mix: withMix(baseMix, func(m *Mix) {
 			m.Range = 14
 			m.SearchAbsent, m.SearchPresent, m.DeleteAbsent, m.Overwrite = 0, 0, 1, 1
@@ -51,7 +51,7 @@ var specs = []*PropSpec{
 	},
 	{
 		ID:  "C04",
-		Cfg: Config{Property: "C04", Assert: asserts("prefix"), ExcludeKF: true, Census: true},
+		Cfg: Config{Property: "C04", Assert: asserts("prefix"), AuditOps: []string{"prefixaudit"}, AuditEvery: 9, ExcludeKF: true, Census: true},
 		Mix: withMix(baseMix, func(m *Mix) {
 			m.Prefix = 14
 			m.SearchAbsent, m.SearchPresent, m.DeleteAbsent, m.Overwrite = 0, 0, 1, 1
@@ -78,7 +78,7 @@ var specs = []*PropSpec{
 	},
 	{
 		ID:  "C05",
-		Cfg: Config{Property: "C05", Assert: asserts("min", "max", "topk", "bottomk"), ExcludeKF: true, Census: true},
+		Cfg: Config{Property: "C05", Assert: asserts("min", "max", "topk", "bottomk"), AuditOps: []string{"extremes", "topbottom"}, AuditEvery: 7, ExcludeKF: true, Census: true},
 		Mix: withMix(baseMix, func(m *Mix) {
 			m.TopBottom, m.Extremes = 8, 8
 			m.SearchAbsent, m.SearchPresent, m.DeleteAbsent = 0, 0, 1
@@ -166,7 +166,7 @@ var specs = []*PropSpec{
 	},
 	{
 		ID:  "C14",
-		Cfg: Config{Property: "C14", Assert: asserts("iter"), ExcludeKF: true},
+		Cfg: Config{Property: "C14", Assert: asserts("iter"), AuditOps: []string{"iteraudit"}, AuditEvery: 11, ExcludeKF: true, Census: true},
 		Mix: withMix(baseMix, func(m *Mix) {
 			m.Iter = 14
 			m.SearchAbsent, m.SearchPresent, m.DeleteAbsent = 0, 0, 1
